@@ -245,7 +245,7 @@ class G:
         if any(f.ret == t and self.pure.get(f.name, False) and self.feasible(f, env) for f in self.fns):
             prods += ["call"]
         if self.has("switch") and depth >= 2 and self.switchable(env) and not isinstance(t0, (Enum, Opt, ErrU)):
-            prods += ["switche"]
+            prods += ["switche", "switche", "switche"]
         k = self.pick(prods)
         if k == "leaf":
             return self.leaf(t, env)
@@ -494,8 +494,26 @@ class G:
         n, sty, _ = self.pick(self.switchable(env))
         arg = self.fresh("sw")
         arms = []
-        for pat in self.arms_for(sty):
-            arms.append((pat, self.expr(t, self.arm_env(env, arg, sty, pat), depth)))
+        pats = self.arms_for(sty)
+        # the type of a value switch is the join of its arms: sometimes the named arms are of a narrower integer type
+        # than the default arm (or than the last arm), so that the join has to widen them
+        narrow = None
+        if isinstance(t, Int) and self.has("implicit-widening") and len(pats) >= 2 and self.chance(7):
+            cands = [s_ for s_ in INTS if s_.signed == t.signed and s_.bits < t.bits and s_.name not in ("isize", "usize") and t.name not in ("isize", "usize")]
+            if cands:
+                narrow = self.pick(cands)
+                self.used.add("implicit-widening")
+                self.used.add("switch-join-widening")
+                if pats[-1] != "default":
+                    pats = pats[:-1] + ["default"]
+        for k, pat in enumerate(pats):
+            at = narrow if (narrow is not None and k < len(pats) - 1) else t
+            if narrow is not None and k == len(pats) - 1 and self.chance(6):
+                # a value of the wide arm that does not fit the narrow type
+                e = Lit(t, narrow.max + 1 + self.int(0, 200))
+            else:
+                e = self.expr(at, self.arm_env(env, arg, sty, pat), depth)
+            arms.append((pat, e))
         return SwitchE(Var(n, sty), arg, arms, t)
 
     def block_expr(self, t, env, depth):
